@@ -77,6 +77,8 @@ def oracle(stream, header, ops, obs):
         first = g[0] if g else ""
         if first == "panic":
             return bad(k, "negative-cost-algorithm-panicked-on-a-valid-graph")
+        if any("f32-twin-mismatch" in x for x in g):
+            return bad(k, "bellman-ford-f32-and-f64-runs-differ")
         if name in ("bellman_ford", "spfa"):
             d = bf_exact(v, a[0])
             inf = INF if name == "bellman_ford" else I32MAX
